@@ -63,3 +63,35 @@ def join_maps(a, b):
     for k, v in b.items():
         n[k] = n.get(k, frozenset()) | v
     return n
+
+
+def reaching_defs(f):
+    """(block id, event index) -> {var id: frozenset of def keys} for local/param variables; def key = (block, idx).
+    Also returns the table def key -> defining tree (rhs / init / ["call", id, name, []] for an out-parameter)."""
+    from .model import strip_casts, is_var
+    deftree = {}
+
+    def defs_of(e, b, i):
+        out = []
+        if e["k"] == "decl":
+            out.append((e["id"], e.get("init", {}).get("tree")))
+        elif e["k"] == "assign" and e.get("base_id") and not e.get("deref") and e.get("lhs") == e.get("base") and e.get("base_kind") in ("local", "param"):
+            out.append((e["base_id"], e.get("rhs", {}).get("tree") if e.get("op") == "=" else ["other", "compound"]))
+        elif e["k"] == "call":
+            for a in e.get("args", []):
+                t = strip_casts(a.get("tree"))
+                if isinstance(t, list) and t and t[0] == "un" and t[1] == "&" and is_var(t[2]):
+                    out.append((strip_casts(t[2])[1], ["call", e.get("id", -1), e.get("callee") or "?", []]))
+        return out
+
+    def transfer(st, b, i, e):
+        for vid, tree in defs_of(e, b, i):
+            deftree[(b.id, i)] = tree
+            st = st.with_(vid, {(b.id, i)})
+        return st
+    res = {}
+
+    def on_event(st, b, i, e):
+        res[(b.id, i)] = dict(st)
+    forward(f, MapState(), transfer, join_maps, on_event=on_event)
+    return res, deftree
